@@ -126,9 +126,9 @@ CLAIMS = {
     'C17': ('proof', 'Lean 4 theorems: totality of the model (structural recursion accepted by the kernel) + the preconditions of every manual index/slice of the Go code + recover-instrumented differential tie',
             "PARTIAL. Every function of the model is total by structural recursion. Theorems C17_value_nonempty / C17_insert_key_nonempty (the host value of every accepted pattern, and the key handed to the tree loop after stripping `*`, is non-empty; "
             "a subdomain pattern is `*.` + non-empty base: Tree.Insert's s[0] and hostOnly's Value[2:]), C17_indexAfter_lt (IndexAfter's precondition n < Size is maintained by Check), C17_cutAtComma_in_range (str[i+1:]), C17_bracket_end (str[1:end]), "
-            "C17_status_range (uint8 status arithmetic cannot wrap for accepted configurations), C17_parsePort_hoist; C17_ix_parseScheme / _parsePort / _fastParseHost / _lastByte / _splitAtCommonSuffix / _trimOWS / _cutAtComma / _check (all of headers.Check with IndexAfter: start <= Size is a proved loop invariant) / _first / _insert / _asciiSet (the [8]uint32 bit set computes list membership for every byte): Model/Ix.lean transliterates the functions that index and slice strings by hand statement by statement with int counters and Go's checked s[i], s[lo:hi] (out of range or out of loop fuel = error), and for every input the index-level program returns ok of exactly what the list-level model returns (refinement, Proofs/IxRefine.lean); C17_ix_bodies pins the text of those functions (fingerprints regenerated on every run); C17_sites: the complete list of index and slice expressions of the non-test code (60 sites), each with the conditions that syntactically dominate it (left operands of the &&/|| chains it is a right operand of, enclosing if/for/range/case conditions, negations of earlier leave-guards; regenerated from the source on every run), equals the audited list, "
+            "C17_status_range (uint8 status arithmetic cannot wrap for accepted configurations), C17_parsePort_hoist; C17_ix_parseScheme / _parsePort / _fastParseHost / _lastByte / _splitAtCommonSuffix / _trimOWS / _cutAtComma / _parse / _treeContains / _originAllowed (the request path Origin header -> Parse -> Tree.Contains on the parallel slices of the nodes) / _check (all of headers.Check with IndexAfter: start <= Size is a proved loop invariant) / _first / _insert / _asciiSet (the [8]uint32 bit set computes list membership for every byte): Model/Ix.lean transliterates the functions that index and slice strings by hand statement by statement with int counters and Go's checked s[i], s[lo:hi] (out of range or out of loop fuel = error), and for every input the index-level program returns ok of exactly what the list-level model returns (refinement, Proofs/IxRefine.lean); C17_ix_bodies pins the text of those functions (fingerprints regenerated on every run); C17_sites: the complete list of index and slice expressions of the non-test code (60 sites), each with the conditions that syntactically dominate it (left operands of the &&/|| chains it is a right operand of, enclosing if/for/range/case conditions, negations of earlier leave-guards; regenerated from the source on every run), equals the audited list, "
             "each entry annotated with the guard or precondition theorem that keeps it in range, so a new or changed index expression and a dropped, weakened or reordered guard break an obligation even when no generated input reaches them (Props/C17.lean). Tie: every call of every suite (lex, tree, acrh, validate, serve, errors, history) runs under recover; a panic is a mismatch with its input as replay.",
-            '6/C17', 'PARTIAL: panics inside library calls and the Go runtime (nil maps from a broken ResponseWriter, stack exhaustion) are outside the model; for 42 of the 60 sites the index-level refinement theorems prove in-range-ness; for the other sites (the parallel slices of the tree nodes, deleteSameSign, Tree.Insert, hostOnly, parseHostPattern, newConfig) that the audited guard set suffices is argued per site in a comment, with the data-dependent preconditions proved (P1-P7).'),
+            '6/C17', 'PARTIAL: panics inside library calls and the Go runtime (nil maps from a broken ResponseWriter, stack exhaustion) are outside the model; for 45 of the 60 sites the index-level refinement theorems prove in-range-ness; for the other sites (the configuration-time half of the tree: Insert, add, upsertEdge, elems, deleteSameSign; hostOnly, parseHostPattern, newConfig) that the audited guard set suffices is argued per site in a comment, with the data-dependent preconditions proved (P1-P7).'),
     'C18': ('other', 'Lean 4 cost-model theorem + regenerated loop/install facts + allocation measurement (testing.AllocsPerRun) over size families',
             "PARTIAL. Theorem C18_bound (Props/C18.lean): in the cost semantics of the model (allocating header primitives; scanners return sub-views and are cost-free by construction) every request costs at most 4, "
             "independently of every length and element count. C18_no_alloc_in_loops / C18_loop_callees / C18_preflight_installs: regenerated facts (decide): no append/make/new/string concatenation/conversion/literal inside any `for` loop "
